@@ -125,6 +125,22 @@ Proof.
   cbn [app] in H. apply (get_ok_sound maxttl a k None) in H. exact H.
 Qed.
 
+(* Stop in the MIDDLE of a history ([OStop] is an operation like any other, so every theorem above
+   already quantifies over histories that contain it): it changes nothing a client can see - the
+   model's state is untouched, and the specification's expectation for every key is the same
+   with or without it; whatever is Set after a Stop is what Get must return. *)
+Theorem main_stop_transparent maxttl s rh k :
+  step maxttl s OStop = (s, RUnit) /\
+  expected_get maxttl (OStop :: rh) k = expected_get maxttl rh k.
+Proof. split; reflexivity. Qed.
+
+Example main_set_after_stop :
+  let ops := [OSet 0 1 100; OStop; OSet 0 2 5; OGet 0; OAdvance 5000000000; OGet 0; OStop; OGet 0] in
+  results 0 0 ops = [RUnit; RUnit; RUnit; RGet (Some 2); RUnit; RGet None; RUnit; RGet None] /\
+  all_obs_ok true 0 [] ops (results 0 0 ops) = true /\
+  all_obs_ok true 0 [] ops [RUnit; RUnit; RUnit; RGet (Some 1); RUnit; RGet (Some 1); RUnit; RGet (Some 1)] = false.
+Proof. vm_compute. repeat split; reflexivity. Qed.
+
 (* the verdict function: 0 exactly when the oracle holds and the model agrees; 2 exactly when the
    oracle fails *)
 Theorem main_check_case_verdict c :
